@@ -3,8 +3,9 @@
 /verif/seeded/<PROP>-<n>/ (patch.diff, demo.rs, agent README excerpt) and writes meta.json skeleton."""
 import sys, os, shutil, json, subprocess, re
 prop, n = sys.argv[1], sys.argv[2]
-wt = f"/tmp/wt-{prop}"
-dst = f"/verif/seeded/{prop}-{n}"
+rnd = sys.argv[3] if len(sys.argv) > 3 else ""          # optional round tag, e.g. r2 (worktree /tmp/w2-<PROP>)
+wt = f"/tmp/w2-{prop}" if rnd else f"/tmp/wt-{prop}"
+dst = f"/verif/seeded/{prop}-{rnd}-{n}" if rnd else f"/verif/seeded/{prop}-{n}"
 os.makedirs(dst, exist_ok=True)
 shutil.copy(f"{wt}/mutant/patch{n}.diff", f"{dst}/patch.diff")
 shutil.copy(f"{wt}/mutant/demo_mutant{n}.rs", f"{dst}/demo.rs")
@@ -12,7 +13,7 @@ readme = open(f"{wt}/mutant/README.md").read() if os.path.exists(f"{wt}/mutant/R
 open(f"{dst}/agent_README.md", "w").write(readme)
 conf = subprocess.run(["/verif/tools/confirm_seeded.sh", wt, n], capture_output=True, text=True).stdout
 files = re.findall(r'^\+\+\+ b/(\S+)', open(f"{dst}/patch.diff").read(), re.M)
-meta = {"id": f"{prop}-{n}", "property": prop, "files_changed": files,
+meta = {"id": os.path.basename(dst), "property": prop, "files_changed": files,
         "breaks": "", "needs_to_manifest": "",
         "confirmation": {"how": "tools/confirm_seeded.sh in the agent's scratch worktree: demo passes on the original source; with the patch the repository suite still shows 105 passed and the demo fails", "output": conf.strip().splitlines()},
         "detected_by": {}}
